@@ -271,6 +271,10 @@ struct RushSt<E> {
     r_seen: BTreeMap<(usize, usize, usize), E>,
     /// the r the "known r" attack decided to use for the target record
     used_r: Option<(usize, E)>,
+    /// batches whose u/w message of the corrupt helper has left its machine
+    u_sent: std::collections::BTreeSet<usize>,
+    /// batches whose missing share of r reached the corrupt helper before its own u/w message had left
+    r_before_u: std::collections::BTreeSet<usize>,
 }
 
 /// mode 0: rush the check-zero step of `batch`; mode 1: only record the shares of r that are opened (honest run: this
@@ -295,12 +299,25 @@ impl<E: Field + Serializable> RushCz<E> {
         let (src, dst, gate) = (hid(*source), hid(*dest), gate.as_ref().to_string());
         let mut st = self.st.lock().unwrap();
         let start = { let e = st.pos.entry((src, dst, gate.clone())).or_insert(0); let s0 = *e; *e += data.len(); s0 };
+        // ---- the corrupt helper's own u/w messages (two values per batch) ----
+        if src == self.c && gate.contains("/validate/propagate") {
+            let mut off = (self.w - start % self.w) % self.w;
+            while off + self.w <= data.len() {
+                st.u_sent.insert((start + off) / (2 * self.w));
+                off += self.w;
+            }
+            return;
+        }
         // ---- shares of r opened by anybody (record = batch index) ----
         if gate.ends_with("/validate/reveal_r") {
             let mut off = (self.w - start % self.w) % self.w;
             while off + self.w <= data.len() {
                 if let Ok(v) = E::deserialize(GenericArray::from_slice(&data[off..off + self.w])) {
-                    st.r_seen.insert((src, dst, (start + off) / self.w), v);
+                    let b = (start + off) / self.w;
+                    if dst == self.c && !st.u_sent.contains(&b) {
+                        st.r_before_u.insert(b);
+                    }
+                    st.r_seen.insert((src, dst, b), v);
                 }
                 off += self.w;
             }
@@ -348,16 +365,17 @@ impl<E: Field + Serializable> RushCz<E> {
                 }
             }
             let Some((b_used, r)) = st.used_r else { return };
+            let before_uw = st.r_before_u.contains(&b_used);
             if is_rx {
                 if let Ok(v) = E::deserialize(GenericArray::from_slice(&data[off..off + width])) {
                     let mut buf = GenericArray::<u8, E::Size>::default();
                     (v + r).serialize(&mut buf);
                     data[off..off + width].copy_from_slice(&buf);
-                    st.fired.push(json!({"gate": gate, "what": "r added to the duplicate product share", "r_of_batch": b_used, "record_batch": self.batch}));
+                    st.fired.push(json!({"gate": gate, "what": "r added to the duplicate product share", "r_of_batch": b_used, "record_batch": self.batch, "r_before_own_uw": before_uw}));
                 }
             } else {
                 faults::apply_pattern(&format!("addle:{width}"), off, data);
-                st.fired.push(json!({"gate": gate, "what": if is_x { "1 added to the product share" } else { "1 added to the copy opened to the other honest helper" }, "r_of_batch": b_used, "record_batch": self.batch}));
+                st.fired.push(json!({"gate": gate, "what": if is_x { "1 added to the product share" } else { "1 added to the copy opened to the other honest helper" }, "r_of_batch": b_used, "record_batch": self.batch, "r_before_own_uw": before_uw}));
             }
             return;
         }
@@ -445,7 +463,7 @@ where
     let rush = StdArc::new(RushCz::<F::ExtendedField> {
         c: corrupt, w: <<F::ExtendedField as Serializable>::Size as Unsigned>::USIZE, batch, mode, target,
         wf: <<F as Serializable>::Size as Unsigned>::USIZE, own_r,
-        st: StdMutex::new(RushSt { pos: BTreeMap::new(), z1: None, z2: None, repl: None, fired: Vec::new(), too_early: 0, r_seen: BTreeMap::new(), used_r: None }),
+        st: StdMutex::new(RushSt { pos: BTreeMap::new(), z1: None, z2: None, repl: None, fired: Vec::new(), too_early: 0, r_seen: BTreeMap::new(), used_r: None, u_sent: Default::default(), r_before_u: Default::default() }),
     });
     let (t2, r2) = (StdArc::clone(&tamper), StdArc::clone(&rush));
     let interceptor: crate::helpers::in_memory_config::DynStreamInterceptor = crate::sync::Arc::new(move |ctx: &crate::helpers::in_memory_config::InspectContext, data: &mut Vec<u8>| {
@@ -594,12 +612,16 @@ where
         // (Fp31: acceptance with probability about 1/31 is legitimate and judged by the rate rule, as for blind tampering)
         let mut res = judge_tampered(&bad, &want, corrupt, &[site], 1, &field, honest.inv.len(), shape);
         let same_batch = bad.fired.iter().any(|f| f.get("r_of_batch") == f.get("record_batch"));
+        // did the missing share of that r reach the corrupt helper before its own u/w message for the batch had left?  (With the
+        // code as it is nobody opens r before it holds the u/w of its left-hand neighbour, so this is impossible; what remains
+        // possible is a helper that sends u/w honestly and withholds its product shares until r has been opened to it.)
+        let before_uw = bad.fired.iter().any(|f| f.get("r_before_own_uw") == Some(&json!(true)));
         res.fault("F1a_known_r_attack", 1);
-        res.probe(if same_batch { "known_r_of_same_batch" } else { "known_r_of_earlier_batch" }, 1);
+        res.probe(if !same_batch { "known_r_of_earlier_batch" } else if before_uw { "known_r_of_same_batch_before_own_uw" } else { "known_r_of_same_batch_after_own_uw" }, 1);
         if res.verdict == Verdict::Violation {
-            res.class = if same_batch { "mac_r_known_before_products_sent".into() } else { "mac_r_of_earlier_batch_still_valid".into() };
+            res.class = if !same_batch { "mac_r_of_earlier_batch_still_valid".into() } else if before_uw { "mac_r_known_before_products_sent".into() } else { "mac_r_opened_to_helper_withholding_products".into() };
             res.detail = format!("{} [adaptive: helper {} used the r {} to add e to a product share and r*e to its duplicate]", res.detail, corrupt + 1,
-                if same_batch { "of the record's own batch, opened to it before it had sent the record's product shares" } else { "opened for an earlier batch" });
+                if !same_batch { "opened for an earlier batch" } else if before_uw { "of the record's own batch, opened to it before it had sent its u/w message of that batch and the record's product shares" } else { "of the record's own batch: it sent its u/w message of the batch, its right-hand neighbour opened r in reply, and only then did it release the record's product shares" });
         }
         return res;
     }
